@@ -234,6 +234,9 @@ class Entry(Generic[ValueTypeT, InfoTypeT]):
             if (is_min and self._value > value) or (is_max and self._value < value):
                 if info and (is_all or is_any):
                     self._infos = {info}
+                else:
+                    # Tags of the previous, worse value must not survive
+                    self._infos = set()
 
                 self._value = value
 
